@@ -1038,7 +1038,9 @@ class IndexHierarchy(IndexBase):
         if self._recache:
             self._update_array_cache()
 
-        index_constructors = tuple(self._levels.index_types())
+        # the index type of each depth follows its depth to the new position
+        index_types = tuple(self._levels.index_types())
+        index_constructors = tuple(index_types[d] for d in depth_map)
 
         index, _ = rehierarch_from_type_blocks(
                 labels=self._blocks,
